@@ -46,6 +46,12 @@ def units(tier):
 OPTS = {'quick': {'max_paths': 6000}}
 
 
+
+def bounded_units(tier):
+    # random corruptions / truncations of whole images on the real open_fp: bounded stand-in, never counted as proved
+    from contracts import hostile as HO
+    return [Unit(HO.OpenCorruptedImage, {'tier': tier})]
+
 def canaries(tier):
     return [Unit(H.PTRParse, {'n': 8, '_canary': True}), Unit(H.DirectoryReadPrefix, {'_canary': True})]
 META = {}
@@ -62,7 +68,7 @@ META = {
         'RockRidge.parse and the Rock Ridge entry loop, _parse_udf_descriptors / _walk_udf_directories glue, _check_for_eltorito_boot_info_table, isohybrid secondary GPT reads: not under contract (their structure parsers are)',
         'memory proportional to the input is proved only for the directory read; other reads use sizes taken from the image (path table size, continuation area length) through file reads, which return at most what the file holds',
     ],
-    'bounded': [],
+    'bounded': ['OpenCorruptedImage: 8 images x 40 (quick) / 600 (thorough) random corruptions or truncations opened by the real library under CPython (bounded run-time contract, not counted as proved)'],
 }
 
 MANIFEST = {
